@@ -12,6 +12,7 @@ import (
 	"os"
 	"path/filepath"
 	"sort"
+	"strconv"
 	"strings"
 
 	"github.com/reusee/sb"
@@ -326,6 +327,10 @@ func classOf(err error) string {
 	}
 	if errors.Is(err, io.EOF) || errors.Is(err, io.ErrUnexpectedEOF) {
 		return "EEnd"
+	}
+	var ne *strconv.NumError
+	if errors.As(err, &ne) {
+		return "EParse"
 	}
 	if errors.Is(err, errPanic) {
 		return "EPanic"
